@@ -331,8 +331,11 @@ where
     /// use [`LoRa::prepare_for_rx`].
     pub async fn rx_switch_channel(&mut self, frequency_in_hz: u32) -> Result<(), RadioError> {
         if let RadioMode::Receive(listen_mode) = self.radio_mode {
-            // a duty-cycled reception may be in its sleep phase: wake the chip first
-            self.radio_kind.ensure_ready(self.radio_mode).await?;
+            // a duty-cycled reception may be in its sleep phase: wake the chip first (a wake-up
+            // that fails half-way may already have ended the reception)
+            if let Err(err) = self.radio_kind.ensure_ready(self.radio_mode).await {
+                return Err(self.abort_to_standby(err).await);
+            }
             self.radio_kind.set_standby().await?;
             self.radio_kind.set_channel(frequency_in_hz).await?;
             match self.radio_kind.do_rx(listen_mode).await {
@@ -349,7 +352,10 @@ where
     pub async fn start_rx(&mut self) -> Result<(), RadioError> {
         if let RadioMode::Receive(listen_mode) = self.radio_mode {
             // a duty-cycled reception started earlier may be in its sleep phase: wake the chip first
-            self.radio_kind.ensure_ready(self.radio_mode).await?;
+            // (a wake-up that fails half-way may already have ended that reception)
+            if let Err(err) = self.radio_kind.ensure_ready(self.radio_mode).await {
+                return Err(self.abort_to_standby(err).await);
+            }
             match self.radio_kind.do_rx(listen_mode).await {
                 Ok(()) => Ok(()),
                 Err(err) => Err(self.abort_to_standby(err).await),
